@@ -344,11 +344,13 @@ package history
 // C11 / C08: every Readline call starts with a clean accept state, so that LineAccepted can only report a
 // line accepted by a command of *this* call (which is what runs Display.AcceptLine before Readline returns).
 //@ func Init
-//@   props C11 C08 C01
+//@   props C11 C08 C01 C02 C09
 //@   assume_nopanic the hold / infer branches call Walk, InferNext and Line.Set under hypotheses that are the main loop's (A-LOOP); only the accept state matters here
 //@   allow_alias the held line becomes the buffer (Line.Set keeps the slice); the deferred reset drops acceptLine before Init returns, so no second reference survives
 //@   requires hist != nil && hist.line != nil && hist.cursor != nil
 //@   ensures [accept-state-cleared] !hist.accepted && hist.acceptErr == nil && len(hist.acceptLine) == 0 && hist.cpos == -1
+//@   ensures [infer-request-is-one-shot] !old(hist.acceptHold) ==> !hist.infer
+//@   ensures [plain-call-starts-on-the-typed-line] !old(hist.acceptHold) && !old(hist.infer) ==> hist.hpos == -1
 
 // NewSources derives the recording limit from the configuration (C08: "a configured history-size limit stops
 // recording only once a source already holds that many entries"): a configured limit is kept as it is, and
@@ -360,3 +362,23 @@ package history
 //@   ensures [structure] fresh(result) && result.line == line && result.cursor == cur && result.hint == hint && result.config == opts && result.hpos == -1 && result.cpos == -1 && result.list != nil && result.lines != nil && len(result.names) == 1 && result.sourcePos == 0 && !result.undoing && !result.skip && !result.accepted && !result.infer && !result.acceptHold
 //@   ensures @C08 [configured-limit-kept] inputrc.cfgint(opts, "history-size") != 0 ==> result.maxEntries == inputrc.cfgint(opts, "history-size")
 //@   ensures @C08 [no-limit-unless-configured] inputrc.cfgint(opts, "history-size") == 0 && !inputrc.cfgisstr(opts, "history-size") ==> result.maxEntries == -1
+
+// Complete builds the candidates of the incremental searches (C-r / C-s) and of the history menu. C09: these
+// searches only read the sources, and the line that becomes a candidate (tested for duplicates, then stored as
+// the candidate's value) is the entry exactly as stored at that position: only the *display* string has its
+// newlines flattened. The whole-list form (every element of the result is a stored entry) is a forall-exists
+// invariant that the solvers do not discharge; what is proved is the per-iteration fact at the point where the
+// line is used, as a call-site assertion. (The loop guards are closures chosen by an if/else just before the
+// loop: go/ssa puts their phi at the loop header; the engine keeps such loop-invariant phis, see DESIGN 2.9.)
+//@ func contains
+//@   props C09 C01
+//@   terminates
+//@   pure
+//@   ensures result0 ==> 0 <= result1 && result1 < len(s)
+//@ func Complete
+//@   props C09
+//@   assume_nopanic the index padding (strconv / strings.Repeat) and the hint are outside this contract: only the lines taken from the source are claimed
+//@   requires hvalid(h) && h.hint != nil
+//@   ensures [sources-untouched] allobj(s, "Source", entries(s) == old(entries(s)))
+//@   at_call history.contains [candidate-line-is-the-stored-entry] 0 <= histPos && histPos < len(entries(history)) && line == entries(history)[histPos]
+//@   loop 1 invariant history == hcur(h) && history != nil && allobj(s, "Source", entries(s) == old(entries(s)))
